@@ -5,7 +5,10 @@ fold bounds), so the reference model is integer arithmetic only; datetimes are b
 feed tradingenv.
 
 Part `episodes`    runs a real TradingEnv (one ETF, zero-weight rebalances) over a generated grid,
-                   events, fold dictionary and episode length; ~200 numpy seeds per case.
+                   events, fold dictionary and episode length; ~200 numpy seeds per case, then 0-3 further
+                   resets on the SAME environment (default reset / reset with another explicit length, same or
+                   another fold), each held to the same oracle: a default reset must use the constructor's
+                   length (or the whole fold) whatever an earlier reset(episode_length=) asked for.
 Part `transmitter` drives Transmitter._reset/_next/_now alone with the same model (cheaper, more cases,
                    markov_reset on/off, delivered events checked as well).
 Part `walk_forward` enumerates every (n in 2..60, train, test, sliding/expanding, datetime/pandas grid)
@@ -33,7 +36,8 @@ RULE = ("episodes/transmitter: Hypothesis draws a grid of 2-12 timesteps (gaps 2
         "on / strictly between / outside grid points, the selected fold, how the length is given (none, constructor "
         "n decisions, reset L = n+1 states, reset overriding a constructor length), n in 1..S+1 where S is the number "
         "of event-bearing timesteps of the fold, optional sampling_span, and a base numpy seed; 200 (+ up to 600) "
-        "seeds are drawn per case. Non-trivial = the fold window cuts the grid strictly inside (an event-bearing "
+        "seeds are drawn per case; episodes then appends 0-3 follow-up resets on the same environment (default or explicit "
+        "length, same or another fold). Non-trivial = the fold window cuts the grid strictly inside (an event-bearing "
         "timestep lies outside it), a grid point without events lies inside the window, and the episode makes >= 2 "
         "decisions. walk_forward: exhaustive enumeration of n in 2..60 x train x sliding/expanding x grid kind, every "
         "test size with train + test <= n inside the case; non-trivial = at least two folds produced.")
@@ -693,5 +697,9 @@ PARTS = [
 #   m11 (own) history replay excludes the first timestep's own events               caught by episodes, transmitter
 #   m12 (own) walk_forward test_end one short                                       caught by walk_forward
 #   m13 (own) expanding window does not start at the first timestep                 caught by walk_forward
+#   m14 (seeded C15_C) reset(episode_length=k) overwrites the environment's configured length    MISSED by the first
+#       version (no default reset ever followed a reset with a length on the same environment); caught since the
+#       follow-up resets were added (classes followup-default / followup-length / reset(L)-then-default).
+#   seeded C15_A, C15_B, C15_D: caught (walk_forward / episodes / episodes).
 # Out-of-quantifier observation (not asserted, not generated): episode_length=1 state (zero decisions) given to
 # TradingEnv.reset / Transmitter._reset is refused with ValueError because steps[: -(1 - 1)] == steps[:0] is empty.
